@@ -11,7 +11,9 @@ From Octo Require GroupBy Joins.
 Inductive c15x_case :=
 | XNode (c : c15_case)                 (* a node of Model/Operators.v *)
 | XGroup (c : GroupBy.gb_case)         (* SimpleGroupBy / CustomTriggerGroupBy through the planner path *)
-| XJoin (c : Joins.c19_case).          (* StreamJoin / OuterJoin under a prescribed schedule *)
+| XJoin (c : Joins.c19_case)           (* StreamJoin / OuterJoin under a prescribed schedule *)
+| XBuffered (c : c15_case).            (* a node (or pipeline) of Model/Operators.v feeding an EventTimeBuffer: a consumer
+                                          that keeps the records it is handed until a watermark releases them *)
 
 (* model output == observed output (exact events; hash-ordered block of SimpleGroupBy as a bag) *)
 Definition c15x_tie (c : c15x_case) : bool :=
@@ -19,6 +21,12 @@ Definition c15x_tie (c : c15x_case) : bool :=
   | XNode c' => c15_tie c'
   | XGroup g => GroupBy.gb_tie g
   | XJoin j => Joins.c19_tie j
+  | XBuffered (arity, nd, inp, ob) =>
+      arity_ok (Z.of_nat arity) (records inp) && node_params_ok arity nd inp &&
+      match run_node nd inp with
+      | ObsEvents m => obs_eqb (ObsEvents (GroupBy.etb_run_finish m)) ob
+      | o => obs_eqb o ob
+      end
   end.
 
 (* ORDER BY ... LIMIT / LIMIT inside C15: the consolidated output is the batch operator (top n of the
@@ -26,7 +34,7 @@ Definition c15x_tie (c : c15x_case) : bool :=
 Definition c15_limit_clause (c : c15_case) : bool :=
   let '(_, nd, _, _) := c in
   match nd with
-  | NLimit _ | NOst _ (Some _) _ | NPrinter _ (Some _) _ => c05_spec (InProc c)
+  | NLimit _ | NOst _ (Some _) _ | NPrinter _ (Some _) _ | NPipe _ (NLimit _) | NPipe _ (NOst _ (Some _) _) => c05_spec (InProc c)
   | _ => true
   end.
 
@@ -46,4 +54,12 @@ Definition c15x_spec (c : c15x_case) : bool :=
       (* consolidated output = (outer) join of the complete inputs; output never retracts an absent row *)
       Joins.c19_spec_final j &&
       (negb (join_inputs_valid j) || valid_changelog (records (concat (Joins.c_steps j))))
+  | XBuffered (arity, nd, inp, ob) =>
+      (* the buffer only delays: at end of stream its consolidated output is the node's batch result *)
+      negb (valid_changelog (records inp)) ||
+      match ob with
+      | ObsEvents out =>
+          match batch_of nd (expand (records inp)) with Some b => bag_eqb (records out) b | None => true end
+      | _ => false
+      end
   end.
